@@ -55,8 +55,8 @@ HARNESSES += [
          domain='every history of NMOD modules with index counts in {0,1,2} (3^NMOD histories, concrete), fptr tables of size 0..FMAX',
          oracle='ranges contiguous from 1, disjoint, in request order; registration order; get_fptr == owner\'s pointer or null for every index',
          nonterm_is_violation=True,
-         bounds={'quick': {'defs': {'NMOD': 3, 'FMAX': 2}, 'unwind': 300, 'unwindset': {_BSM: 4}, 'cap': 600},
-                 'thorough': {'defs': {'NMOD': 4, 'FMAX': 2}, 'unwind': 1200, 'unwindset': {_BSM: 5}, 'cap': 3000}}),
+         bounds={'quick': {'defs': {'NMOD': 3, 'FMAX': 2}, 'unwind': 1000, 'unwindset': {_BSM: 4}, 'cap': 600},
+                 'thorough': {'defs': {'NMOD': 4, 'FMAX': 2}, 'unwind': 5000, 'unwindset': {_BSM: 5}, 'cap': 3000}}),
     {'id': 'c13_request_maps', 'property': 'C13', 'src': 'c13_modules.cxx', 'entry': 'harness_c13_request_maps',
      'tus': [_DB + 'interrogateDatabase.cxx'], 'tuflags': _ASSERTS, 'hflags': _ASSERTS,
      'desc': 'request_module: by-hash registration and lazy-load queue',
